@@ -53,7 +53,7 @@ func init() {
 		if err != nil {
 			return "", err
 		}
-		var globalWrites, appendBases, globalArgs, optionWrites, mapRanges, nondet, lockUse, byteGlobals []string
+		var globalWrites, appendBases, globalArgs, optionWrites, mapRanges, nondet, lockUse, byteGlobals, registryWrites []string
 		seenPk := 0
 		for _, p := range pkgs {
 			short, ok := libPkgs[p.PkgPath]
@@ -61,7 +61,7 @@ func init() {
 				continue
 			}
 			seenPk++
-			c13Package(p, short, &globalWrites, &appendBases, &globalArgs, &optionWrites, &mapRanges, &nondet, &lockUse, &byteGlobals)
+			c13Package(p, short, &globalWrites, &appendBases, &globalArgs, &optionWrites, &mapRanges, &nondet, &lockUse, &byteGlobals, &registryWrites)
 		}
 		if seenPk != len(libPkgs) {
 			return "", fmt.Errorf("expected %d library packages, found %d", len(libPkgs), seenPk)
@@ -107,13 +107,14 @@ func init() {
 		emit("mapRanges", "range statements over maps: `pkg.func: expr`", mapRanges)
 		emit("nondet", "sources of nondeterminism / concurrency: `pkg.func: kind`", nondet)
 		emit("lockUse", "lock skeleton of registry methods: `func: op;op;…`", lockUse)
+		emit("registryWrites", "assignments to the registry's own fields (literal map, pattern slice, URL) in package minify: `func: lhs`", registryWrites)
 		emit("byteGlobals", "package-level []byte variables (runtime-checked through the VerifGlobals hook): `pkg.var`", byteGlobals)
 		b.WriteString(footer("ConcFacts"))
 		return b.String(), nil
 	})
 }
 
-func c13Package(p *packages.Package, short string, globalWrites, appendBases, globalArgs, optionWrites, mapRanges, nondet, lockUse, byteGlobals *[]string) {
+func c13Package(p *packages.Package, short string, globalWrites, appendBases, globalArgs, optionWrites, mapRanges, nondet, lockUse, byteGlobals, registryWrites *[]string) {
 	info := p.TypesInfo
 	scope := p.Types.Scope()
 	isGlobal := func(e ast.Expr) (*types.Var, bool) {
@@ -184,6 +185,14 @@ func c13Package(p *packages.Package, short string, globalWrites, appendBases, gl
 			ast.Inspect(fd.Body, func(n ast.Node) bool {
 				switch x := n.(type) {
 				case *ast.AssignStmt:
+					if short == "minify" {
+						for _, lhs := range x.Lhs {
+							t := exprText(p.Fset, lhs)
+							if strings.HasPrefix(t, "m.literal") || strings.HasPrefix(t, "m.pattern") || strings.HasPrefix(t, "m.URL") {
+								*registryWrites = append(*registryWrites, fmt.Sprintf("%s: %s", fname, t))
+							}
+						}
+					}
 					for _, lhs := range x.Lhs {
 						if v, ok := isGlobal(lhs); ok {
 							*globalWrites = append(*globalWrites, fmt.Sprintf("%s.%s assign in %s", short, v.Name(), fname))
